@@ -88,6 +88,8 @@ pub enum DynLayout {
     Any(AnyLayout),
     AnyRef(AnyLayout),
     Recorder { id: u8, log: AskLog },
+    /// answers every key with its own raw key (used where only modifier tracking matters)
+    Null,
 }
 impl DynLayout {
     pub fn object(obj: usize) -> DynLayout {
@@ -124,6 +126,7 @@ impl KeyboardLayout for DynLayout {
                 let r: &AnyLayout = a;
                 <&AnyLayout as KeyboardLayout>::map_keycode(&r, keycode, modifiers, handle_ctrl)
             }
+            DynLayout::Null => DecodedKey::RawKey(keycode),
             DynLayout::Recorder { id, log } => {
                 let mut l = log.borrow_mut();
                 // unique token per consultation, in the private-use area
